@@ -277,6 +277,28 @@ func vfC10eval(c *vfC10Case, st map[string]int) error {
 	if err := try(base, "everything from A"); err != nil {
 		return err
 	}
+	// Filecoin retrieval enabled with a root CID other than the one the indexes record (the CAR section is still
+	// in the file): the configured Filecoin root must be compared with the indexes and the load refused. (With the
+	// matching root the loader would go on to the network, which is not available here.)
+	{
+		cfgPath := filepath.Join(dir, "cfg-filecoin-root.yaml")
+		if err := os.WriteFile(cfgPath, []byte(envs["A"].configYAML(map[string]string{"filecoin_root": rootOf["A2"]})), 0o644); err != nil {
+			return err
+		}
+		st["filecoin-root-mismatch"]++
+		var ep *Epoch
+		lerr, _ := vfh.Catch(func() error {
+			var e error
+			ep, e = vfLoadEpochFrom(cfgPath, cache)
+			return e
+		})
+		if lerr == nil {
+			if ep != nil {
+				ep.Close()
+			}
+			return fmt.Errorf("config [A with data.filecoin enabled and root_cid of A2] loaded although the configured Filecoin root %s differs from the root %s the indexes record", rootOf["A2"], rootOf["A"])
+		}
+	}
 	// metadata written at build time is read back unchanged
 	{
 		ep, err := envs["A"].Load(cache)
@@ -456,7 +478,7 @@ func vfC10eval(c *vfC10Case, st map[string]int) error {
 func TestVfC10(t *testing.T) {
 	run := vfh.Begin("C10", "identity")
 	defer run.End(t)
-	run.Require("must-fail", "must-load", "foreign-car-fetches", "same-layout-foreign-car-fetches", "field-patch:epoch", "field-patch:root", "field-patch:forged-epoch", "field-patch:gsfa-inner-kind")
+	run.Require("must-fail", "must-load", "foreign-car-fetches", "same-layout-foreign-car-fetches", "field-patch:epoch", "field-patch:root", "field-patch:forged-epoch", "field-patch:gsfa-inner-kind", "filecoin-root-mismatch")
 	opts := cargen.DefaultOpts()
 	opts.MaxBlocks = 5
 	opts.BigFrames = false
